@@ -498,6 +498,13 @@ class AttributeSet(TypedExpression):
             if isinstance(binding, Binding) and binding.name == key:
                 binding.value = value
                 return
+        for item in self.values:
+            if isinstance(item, Inherit) and key.strip('"') in {
+                name.name if isinstance(name, Identifier) else getattr(name, "value", None)
+                for name in item.names
+            }:
+                # A second definition next to the inherit clause is not valid Nix.
+                raise ValueError(f"Cannot overwrite inherited attribute: {key}")
         new_binding = Binding(name=key, value=value)
         if not self.values and self.inner_trivia:
             # Comments of a set without bindings stay above the first binding.
